@@ -1384,6 +1384,8 @@ func (client *client) pollInflights() (cont bool, err error) {
 			client.pl.markUsedLocked(id)
 			client.write(gmqtt.MessageToPublish(m.Message, client.version))
 		case *queue.Pubrel:
+			// the packet id stays in use until PUBCOMP
+			client.pl.markUsedLocked(id)
 			client.write(&packets.Pubrel{PacketID: id})
 		}
 	}
